@@ -9,7 +9,7 @@ use crate::wire;
 use crate::world::{Actor, Cond, Opts, Outcome, Scenario, Step};
 use std::sync::Arc;
 
-pub const EVENTS: &[&str] = &["none", "refuse", "crash", "up", "hcfail", "hchang", "hcslow", "break", "hang", "ban", "unban", "adv-ban", "adv-admin-ban", "stop", "blackhole", "adv-1s"];
+pub const EVENTS: &[&str] = &["none", "refuse", "crash", "up", "hcfail", "hchang", "hcslow", "break", "hang", "ban", "unban", "adv-ban", "adv-admin-ban", "stop", "blackhole", "adv-1s", "reload"];
 pub const ROLES: &[&str] = &["any", "replica", "primary"];
 
 fn addr_of(i: usize) -> String {
@@ -97,6 +97,8 @@ fn event_steps(ev: &str, target: usize) -> Vec<Step> {
         "unban" => vec![Step::Admin(format!("UNBAN {}", host))],
         // a short while: no ban (automatic 60 s, admin 30 s) may have expired, no health check is due
         "adv-1s" => vec![Step::Advance(1_000)],
+        // a RELOAD of a file that differs in an unrelated general setting: the pool, and its bans, stay
+        "reload" => vec![Step::Probe, Step::WriteConfig(0), Step::Admin("RELOAD".into()), Step::Probe],
         "adv-ban" => vec![Step::Advance(61_000)],
         "adv-admin-ban" => vec![Step::Advance(31_000)],
         _ => panic!("event"),
@@ -155,7 +157,11 @@ pub fn scenario(replicas: usize, primary: bool, lb: &str, history: &[(&str, usiz
     Scenario {
         name: format!("C07 replicas={} primary={} lb={} history={}", replicas, primary, lb, hname.join(",")),
         toml: cfg.toml(),
-        alt_tomls: vec![],
+        alt_tomls: vec![{
+            let mut c2 = cfg.clone();
+            c2.general_extra = format!("{}log_client_disconnections = true\n", c2.general_extra);
+            c2.toml()
+        }],
         servers,
         actors: vec![Actor { name: "c0".into(), steps }],
         opts: Opts { explore_perms: true, max_events: 600, horizon_ms: 600_000, ..Opts::default() },
@@ -218,6 +224,30 @@ pub fn oracle(sc: &Scenario, out: &Outcome) -> Vec<Violation> {
             }
         }
     }
+    // a RELOAD that leaves the pool alone leaves its bans alone: what was banned (and has not expired) before
+    // the command is banned after it
+    for e in log {
+        if let Rec::Event { label, .. } = &e.rec {
+            if label != "admin(RELOAD)" {
+                continue;
+            }
+            let before = probes.iter().rev().find(|(s, _)| *s < e.seq).map(|(_, p)| p.clone());
+            let after = probes.iter().find(|(s, _)| *s > e.seq).map(|(_, p)| p.clone());
+            if let (Some(b), Some(a)) = (before, after) {
+                let now = a["now_s"].as_i64().unwrap();
+                let listed: Vec<String> = a["bans"].as_array().unwrap().iter().map(|x| x["host"].as_str().unwrap().to_string()).collect();
+                for ban in b["bans"].as_array().unwrap() {
+                    let since = ban["since_s"].as_i64().unwrap();
+                    let reason = ban["reason"].as_str().unwrap_or("");
+                    let dur = if let Some(r) = reason.strip_prefix("AdminBan(") { r.trim_end_matches(')').parse::<i64>().unwrap_or(60) } else { ban["ban_time"].as_i64().unwrap_or(60) };
+                    let host = ban["host"].as_str().unwrap().to_string();
+                    if now - since < dur && !listed.contains(&host) {
+                        vs.push(v("C07.ban-lost", format!("C07.ban-lost:reload:{}", ctx), format!("{} was banned ({}) before the RELOAD of an unrelated setting and is not after it", host, reason)));
+                    }
+                }
+            }
+        }
+    }
     let sends: Vec<(usize, u64, String)> = log
         .iter()
         .filter_map(|e| match &e.rec {
@@ -256,6 +286,9 @@ pub fn oracle(sc: &Scenario, out: &Outcome) -> Vec<Violation> {
             .map(|b| b["host"].as_str().unwrap().to_string())
             .collect();
         let all_replicas_listed = before["bans"].as_array().unwrap().len() >= replicas && replicas > 0;
+        // when every replica is banned the pooler lifts all the bans ("better a broken replica than none"): from
+        // then on the banned replicas are candidates again, with whatever is wrong with them
+        let banned_for_choice: Vec<String> = if all_replicas_listed { Vec::new() } else { banned.clone() };
         // servers whose established connections were killed and that have not been used/recovered since
         let mut crashed: Vec<String> = Vec::new();
         for e in log.iter().take_while(|e| e.seq < *seq) {
@@ -285,7 +318,7 @@ pub fn oracle(sc: &Scenario, out: &Outcome) -> Vec<Violation> {
             let healthy = be["accept"] == "Up" && be["startup"] == "Normal" && faults.is_empty() && !crashed.contains(&host);
             // a server that will break while executing (or whose pooled connections are dead) may fail this one transaction
             let fragile = faults.iter().any(|f| f.contains("ClientOriginated")) || crashed.contains(&host);
-            if !banned.contains(&host) {
+            if !banned_for_choice.contains(&host) {
                 if healthy {
                     healthy_unbanned += 1;
                 }
@@ -497,7 +530,7 @@ pub fn build(tier: &str) -> SimCheck {
         oracle: Box::new(oracle),
         bound: 1,
         limits: Limits { max_wall_s: if thorough { 2400.0 } else { 55.0 }, ..Default::default() },
-        rule: "scenario = shard shape (replicas 1..3 with/without primary, primary only) x load-balancing mode x history of depth 1-2 (thorough 3) over 16 events on a replica (down, crashed, stopped = accepts but never answers the startup until it runs again, black-holed = connect swallowed until the kernel's 127 s timeout, recover, health check failing / hanging / answering late after an idle gap, breaking or hanging mid-statement, admin BAN / UNBAN, one second passing, ban expiry, admin-ban expiry), each followed by a transaction with role any/replica/primary between two pooler-state probes, then recovery and final transactions; the same with a second client holding a transaction open on a replica throughout (its pool has a connection in use and none idle); every candidate order (enumerated shuffle) with 1 deviation".into(),
+        rule: "scenario = shard shape (replicas 1..3 with/without primary, primary only) x load-balancing mode x history of depth 1-2 (thorough 3) over 16 events on a replica (down, crashed, stopped = accepts but never answers the startup until it runs again, black-holed = connect swallowed until the kernel's 127 s timeout, recover, health check failing / hanging / answering late after an idle gap, breaking or hanging mid-statement, admin BAN / UNBAN, one second passing, ban expiry, admin-ban expiry, a RELOAD of an unrelated general setting), each followed by a transaction with role any/replica/primary between two pooler-state probes, then recovery and final transactions; the same with a second client holding a transaction open on a replica throughout (its pool has a connection in use and none idle); every candidate order (enumerated shuffle) with 1 deviation".into(),
         assumptions: vec![
             "ban membership is read from the pooler (get_bans) and cross-checked against observed failures; expiry is computed from the virtual wall clock".into(),
             "a candidate with any pending injected fault counts as unhealthy when deciding whether service was owed".into(),
